@@ -836,7 +836,9 @@ def helper_obligation(p_std, p_core, path, name, lt, rt, lprom, rprom, kk, pre_t
     """`path(name)` is called with argument kinds (lt, rt) after the plan's conversions; lprom/rprom say that the argument is an
     int operand promoted with `as f64`. Decide: raise iff divisor zero, no other failure, value = documented kernel."""
     t0 = time.time()
-    r = {"id": f"H-{name}({'int->' if lprom else ''}{lt},{'int->' if rprom else ''}{rt})", "helper": path, "operands": f"({lt}, {rt})", "pre": list(pre_texts)}
+    import hashlib
+    tagp = ("|lit-" + hashlib.sha1(" ".join(pre_texts).encode()).hexdigest()[:6]) if pre_texts else ""
+    r = {"id": f"H-{name}({'int->' if lprom else ''}{lt},{'int->' if rprom else ''}{rt}){tagp}", "helper": path, "operands": f"({lt}, {rt})", "pre": list(pre_texts)}
     try:
         has_fp = "f64" in (lt, rt) or kk == "div"
         c = Ctx(p_std, "bv" if has_fp else "int", 64, *fp_fmt)
